@@ -8,6 +8,7 @@ CONSTANTS
   ConnSets <- CS_small
   MaxSeq = 1
   MaxSteps = 1
+  WithExpire = FALSE
   DumpHist = FALSE
 INVARIANTS
   TypeOK
